@@ -31,6 +31,7 @@ type vNode struct {
 	rounds  []*vRound
 	// commit callback behaviour
 	commitErr    bool
+	commitPanics bool // the commit callback panics (a bug of the consumer) after recording the commit
 	onCommitHook func(ctx context.Context) // runs inside the commit callback (the worker is blocked in the SPI call)
 }
 
@@ -81,6 +82,9 @@ func (n *vNode) onCommit(ctx context.Context, block interfaces.Block, blockProof
 	n.commits = append(n.commits, &vCommit{seq: len(n.rounds), block: b, raw: block, proof: blockProof, ctx: ctx})
 	if n.onCommitHook != nil {
 		n.onCommitHook(ctx)
+	}
+	if n.commitPanics {
+		panic("consumer commit callback: unexpected failure")
 	}
 	if n.commitErr {
 		return stub.ErrStub
@@ -161,6 +165,8 @@ func paramWeights() []uint64 {
 		return []uint64{3, 1, 0, 4} // a zero-weight member (W=8, f=2, Q=6)
 	case 6:
 		return []uint64{1, 1, 1, 7} // member 3 alone holds the quorum weight (W=10, f=3, Q=7)
+	case 7:
+		return []uint64{7, 1, 1, 1} // the leader of view 0 alone holds the quorum weight
 	}
 	return equalWeights(4)
 }
